@@ -20,7 +20,7 @@ BOUNDS = {
 STUBS = ["codecs.lookup model (CharsetAccept), differentially tested (see C07)"]
 ASSUMPTIONS = ["quality values are exact rationals (float rounding of short decimal literals preserves order and equality)",
                "item / offer texts are enumerated concrete shapes, not solver-quantified"]
-OUTSIDE = ["LanguageAccept's primary-tag fallbacks are only checked for 'returns an offer or the default'", "more than 4 client ranges"]
+OUTSIDE = ["more than 4 client ranges", "offers whose text merely starts with another offer's primary subtag (e.g. 'eng' next to 'en')"]
 
 # --- independent matching definitions -------------------------------------------------
 
@@ -91,8 +91,10 @@ SHAPES = {
     "MIMEAccept": [(["text/*", "text/html", "*/*"], ["text/html", "text/plain", "image/png"]),
                    (["text/html;level=1", "text/html", "*/*"], ["text/html", "text/html;level=1", "application/json"]),
                    (["*/*", "application/json"], ["application/json", "text/html"]),
-                   (["text/*", "image/*", "bogus"], ["image/png", "text/plain"])],
-    "LanguageAccept": [(["en-US", "en", "*"], ["en", "en_us", "de"]), (["de", "en-gb"], ["en-GB", "de", "fr"]), (["*", "fr"], ["fr", "it"])],
+                   (["text/*", "image/*", "bogus"], ["image/png", "text/plain"]),
+                   (["text/*;level=1", "text/html", "*/*"], ["text/html", "text/plain"])],
+    "LanguageAccept": [(["en-US", "en", "*"], ["en", "en_us", "de"]), (["de", "en-gb"], ["en-GB", "de", "fr"]), (["*", "fr"], ["fr", "it"]),
+                       (["en_US", "fr-CA"], ["fr", "en"]), (["en", "de"], ["it", "en-US", "de_AT"]), (["en_US", "zh-Hant-TW"], ["de", "zh", "en-GB"])],
     "CharsetAccept": [(["utf-8", "latin1", "*"], ["iso-8859-1", "UTF8", "ascii"]), (["ascii", "utf8"], ["us-ascii", "utf-8"])],
 }
 
@@ -127,6 +129,30 @@ def ref_best(cls, items, qs, offers):
     return result
 
 
+def _primary(tag):
+    import re
+
+    return re.split("[_-]", tag, 1)[0]
+
+
+def ref_best_lang(items, qs, offers):
+    """documented LanguageAccept.best_match: exact (delimiter/case-normalised) match first;
+    else the client's ranges cut to their primary subtag against the offers as plain values;
+    else the client's ranges against the offers' primary subtags, answering with the first
+    offer that has the chosen primary subtag"""
+    r = ref_best("LanguageAccept", items, qs, offers)
+    if r is not None:
+        return r
+    r = ref_best("Accept", [_primary(x) for x in items], qs, offers)
+    if r is not None:
+        return r
+    prim = [_primary(o) for o in offers]
+    r = ref_best("LanguageAccept", items, qs, prim)
+    if r is not None:
+        return offers[prim.index(r)]
+    return None
+
+
 def body_best_match(I, X, cls="Accept", shape=0, nitems=3, perm=0, operm=0):
     from werkzeug.datastructures import accept as acc
 
@@ -137,12 +163,8 @@ def body_best_match(I, X, cls="Accept", shape=0, nitems=3, perm=0, operm=0):
     qs = [X.real(f"q{i}", 0, 1) for i in range(len(items))]
     a = I.call(klass, (list(zip(items, qs)),))
     got = I.call(a.best_match, (offers,))
-    exp = ref_best(cls, items, qs, offers)
-    ok = True
-    if cls == "LanguageAccept" and exp is None:
-        ok = got is None or got in offers
-    else:
-        ok = got == exp
+    exp = ref_best_lang(items, qs, offers) if cls == "LanguageAccept" else ref_best(cls, items, qs, offers)
+    ok = got == exp
     # quality(offer) agrees with the definition
     for off in offers:
         r = ref_quality(cls, items, qs, off)
@@ -153,6 +175,9 @@ def body_best_match(I, X, cls="Accept", shape=0, nitems=3, perm=0, operm=0):
             ok = pand(ok, r[1] > 0)
         if got == off and r is None and cls != "LanguageAccept":
             ok = False
+        if got == off and r is None and cls == "LanguageAccept":
+            # chosen through a primary-subtag fallback: some client range with q > 0 shares it
+            ok = pand(ok, por(*[q > 0 for rng, q in zip(items, qs) if rng == "*" or _primary(rng).lower() == _primary(off).lower()] or [False]))
     return ok, {"got": got, "exp": exp}
 
 
